@@ -236,6 +236,9 @@ def suite_fps_cli(seed, tier):
             d = tmp / f"s{k}"
             d.mkdir()
             m = rng.randint(3, 14)
+            many_parts = (k % 3 == 2)           # 10..12 output files: the part index needs two digits
+            if many_parts:
+                m = rng.randint(22, 30)
             smiles = [rng.choice(SMILES_OK) for _ in range(m)]
             n_bad = rng.choice([0, 1, 2])
             for _ in range(n_bad):
@@ -243,14 +246,14 @@ def suite_fps_cli(seed, tier):
             (d / "in.smi").write_text("\n".join(smiles) + "\n")
             pack = rng.random() < 0.6
             ref, ref_inv = fps_from_smiles(smiles, n_features=64, skip_invalid=True, pack=pack)
-            mode = rng.choice(["single", "parts", "max"])
+            mode = rng.choice(["single", "parts", "max"]) if not many_parts else rng.choice(["parts", "max"])
             args = ["fps-from-smiles", str(d / "in.smi"), "-o", str(d / "out"), "--name", "x",
                     "--n-features", "64", "--skip-invalid", "--no-verbose", "--ps", str(rng.choice([1, 2] if tier == "quick" else [1, 2, 3, 8]))]
             args += ["-p"] if pack else ["-P"]
             if mode == "parts":
-                args += ["-n", str(rng.randint(2, 4))]
+                args += ["-n", str(rng.randint(2, 4) if not many_parts else rng.choice([10, 11, 12]))]
             elif mode == "max":
-                args += ["-m", str(rng.choice([2, 3, m, m + 5]))]
+                args += ["-m", str(rng.choice([2, 3, m, m + 5]) if not many_parts else 2)]
             rc, out, exc = _invoke(args)
             cases += 1
             if rc != 0:
